@@ -21,6 +21,17 @@ def run_property(pid, tier, only_key=None, quiet=False):
             fn(run)
         except AnalysisError as e:
             run.error(str(e))
+        if tier == 'thorough' and only_key is None and not os.environ.get('VERIF_NO_TWINS'):
+            # sensitivity witnesses: every broken twin of this property must make the quick check fire
+            from . import selftest
+            res = selftest.run_twins(pid)
+            run.extra['sensitivity_witnesses'] = {
+                'twins': len(res), 'fired': sum(1 for r in res if r[2] == 'fired'),
+                'skipped': [r[0] for r in res if r[2] == 'skipped'], 'missed': [r[0] for r in res if r[2] == 'MISSED'],
+                'samples': [{'twin': r[0], 'verdict': r[2], 'report': r[3][:160]} for r in res[:6]]}
+            for r in res:
+                if r[2] == 'MISSED':
+                    run.error('sensitivity witness %s did not fire: the check lost the ability to see this defect (%s)' % (r[0], r[3][:200]))
         return run.finish(quiet=quiet, only_key=only_key)
     except AnalysisError as e:
         print('ANALYSIS-ERROR property=%s %s' % (pid, e))
